@@ -1,6 +1,7 @@
 package radixdb
 
 import (
+	"bytes"
 	"errors"
 	"fmt"
 	"sync/atomic"
@@ -41,19 +42,41 @@ func FromObject(obj interface{}) ([]byte, error) {
 	return item.Key, nil
 }
 
+// toIndexKey encodes a key for the radix index. The encoding keeps the byte order of the keys and
+// is prefix free (no encoded key is a proper prefix of another one or of an encoded seek target),
+// also for keys that contain or end with 0x00: every 0x00 is escaped as 0x00 0xff and the key is
+// terminated by 0x00 0x01. The radix iterators rely on that.
 func toIndexKey(key []byte) []byte {
 	if key == nil {
 		return nil
 	}
-	key = append(key, '\x00')
-	return key
+	nk := make([]byte, 0, len(key)+bytes.Count(key, []byte{0})+2)
+	for _, b := range key {
+		nk = append(nk, b)
+		if b == 0 {
+			nk = append(nk, 0xff)
+		}
+	}
+	return append(nk, 0, 1)
 }
 
 func extractFromIndexKey(key []byte) []byte {
-	if len(key) == 0 {
+	if len(key) < 2 {
+		return key[:0]
+	}
+	key = key[:len(key)-2]
+	if bytes.IndexByte(key, 0) < 0 {
 		return key
 	}
-	return key[:len(key)-1]
+	nk := make([]byte, 0, len(key))
+	for i := 0; i < len(key); i++ {
+		nk = append(nk, key[i])
+		if key[i] == 0 {
+			// skip the escape byte
+			i++
+		}
+	}
+	return nk
 }
 
 // Txn is a transaction against a MemDB.
